@@ -54,17 +54,7 @@ fn decode(bytes: &[u8], len: usize, idx: &mut [u16; 3], val: &mut [u32; 3], flg:
     n
 }
 
-// @harness c11_snapshot_and_resume
-// @props C11
-// @tier quick
-// @timeout 2400
-// @mem 8
-// @units StaticDatabase::{add, update, select_by_type, push_selection, write, write_range, write_typed_range, reset}, PointMap::select_range_with_variation, SelectionQueue, RangeWriter::{write, try_write, start_header, write_next_value}, is_consecutive, Counter -> Group20Var1
-// @bounds a database with counter points at indices 3, 4 and 9 (fixed), ALL values and flags arbitrary; READ g20v1 over an arbitrary range [start..=stop]; after the selection every point is updated again with arbitrary values (must not leak into the response); first response fragment has arbitrary room 0..=40 bytes, the second fragment has room for everything: the two fragments together report every point of the range exactly once, in ascending index order, contiguous indices sharing a header, with value and flags as they were when the READ was processed; a fragment that is reported complete leaves nothing behind; out of space <=> something is left for the next fragment
-// @outside FIR/FIN/CON series logic and the confirm gate between fragments (async); other point types (same generic code); sparse maps beyond three points
-#[kani::proof]
-#[kani::unwind(5)]
-fn c11_snapshot_and_resume() {
+fn snapshot_and_resume(start: u16, stop: u16) {
     let mut db = mk_db();
     let v0 = [any_counter(), any_counter(), any_counter()];
     let mut i = 0;
@@ -72,9 +62,6 @@ fn c11_snapshot_and_resume() {
         assert!(db.update(&v0[i], IDX[i], no_event_update()).0);
         i += 1;
     }
-    let start: u16 = kani::any();
-    let stop: u16 = kani::any();
-    kani::assume(start <= stop);
     let iin2 = db.select_by_type::<Counter>(Some(StaticCounterVariation::Group20Var1), Some(IndexRange::new(start, stop)));
     assert!(iin2.value == 0);
     // the application keeps updating while the response series is in progress
@@ -135,17 +122,61 @@ fn c11_snapshot_and_resume() {
     let mut out3 = [0u8; 8];
     let mut c3 = WriteCursor::new(&mut out3);
     assert!(db.write(&mut c3).is_ok() && c3.position() == 0);
-    kani::cover!(ne == 3 && n1 == 1);
-    kani::cover!(ne == 3 && n1 == 2);
-    kani::cover!(ne == 0);
-    kani::cover!(ne == 3 && n1 == 3);
+    kani::cover!(n1 < ne || ne == 0);
+    kani::cover!(n1 == ne);
     std::mem::forget(db);
+}
+
+// @harness c11_snapshot_and_resume_all
+// @props C11
+// @tier thorough
+// @class attempt
+// @timeout 2400
+// @mem 10
+// @units StaticDatabase::{add, update, select_by_type, push_selection, write, write_range, write_typed_range, reset}, PointMap::select_range_with_variation, SelectionQueue, RangeWriter::{write, try_write, start_header, write_next_value}, is_consecutive, Counter -> Group20Var1
+// @bounds a database with counter points at indices 3, 4 and 9 (fixed), ALL values and flags arbitrary; READ g20v1 over the range [0..=65535] (all three points); after the selection every point is updated again with arbitrary values (must not leak into the response); first response fragment has arbitrary room 0..=40 bytes, the second has room for everything: the two fragments together report every point of the range exactly once, in ascending index order, contiguous indices sharing a header, with value and flags as they were when the READ was processed; a fragment reported complete leaves nothing behind; out of space <=> something is left for the next fragment
+// @outside FIR/FIN/CON series logic and the confirm gate between fragments (async); other point types (same generic code); symbolic range bounds (B-tree search intractable)
+#[kani::proof]
+#[kani::unwind(5)]
+fn c11_snapshot_and_resume_all() {
+    snapshot_and_resume(0, 65535)
+}
+
+// @harness c11_snapshot_and_resume_two
+// @props C11
+// @tier thorough
+// @class attempt
+// @timeout 2400
+// @mem 10
+// @units StaticDatabase::{add, update, select_by_type, push_selection, write, write_range, write_typed_range, reset}, PointMap::select_range_with_variation, SelectionQueue, RangeWriter::{write, try_write, start_header, write_next_value}, is_consecutive, Counter -> Group20Var1
+// @bounds a database with counter points at indices 3, 4 and 9 (fixed), ALL values and flags arbitrary; READ g20v1 over the range [4..=9] (the points 4 and 9 (not contiguous)); after the selection every point is updated again with arbitrary values (must not leak into the response); first response fragment has arbitrary room 0..=40 bytes, the second has room for everything: the two fragments together report every point of the range exactly once, in ascending index order, contiguous indices sharing a header, with value and flags as they were when the READ was processed; a fragment reported complete leaves nothing behind; out of space <=> something is left for the next fragment
+// @outside FIR/FIN/CON series logic and the confirm gate between fragments (async); other point types (same generic code); symbolic range bounds (B-tree search intractable)
+#[kani::proof]
+#[kani::unwind(5)]
+fn c11_snapshot_and_resume_two() {
+    snapshot_and_resume(4, 9)
+}
+
+// @harness c11_snapshot_and_resume_none
+// @props C11
+// @tier thorough
+// @class attempt
+// @timeout 2400
+// @mem 10
+// @units StaticDatabase::{add, update, select_by_type, push_selection, write, write_range, write_typed_range, reset}, PointMap::select_range_with_variation, SelectionQueue, RangeWriter::{write, try_write, start_header, write_next_value}, is_consecutive, Counter -> Group20Var1
+// @bounds a database with counter points at indices 3, 4 and 9 (fixed), ALL values and flags arbitrary; READ g20v1 over the range [5..=8] (no point); after the selection every point is updated again with arbitrary values (must not leak into the response); first response fragment has arbitrary room 0..=40 bytes, the second has room for everything: the two fragments together report every point of the range exactly once, in ascending index order, contiguous indices sharing a header, with value and flags as they were when the READ was processed; a fragment reported complete leaves nothing behind; out of space <=> something is left for the next fragment
+// @outside FIR/FIN/CON series logic and the confirm gate between fragments (async); other point types (same generic code); symbolic range bounds (B-tree search intractable)
+#[kani::proof]
+#[kani::unwind(5)]
+fn c11_snapshot_and_resume_none() {
+    snapshot_and_resume(5, 8)
 }
 
 // @harness c11_snapshot_binary_packed
 // @props C11
 // @tier thorough
-// @timeout 7200
+// @class attempt
+// @timeout 2400
 // @mem 12
 // @units StaticDatabase::{add, update, select_by_type, write, write_typed_range}, StaticVariation<BinaryInput>::{promote, get_write_info}, RangeWriter (bit packing + fixed), WireFlags for BinaryInput
 // @bounds binary inputs at indices 3 and 4 configured for the packed variation g1v1, values and flags arbitrary; READ of the whole range; BOTH points are updated with arbitrary new values/flags after the selection; one fragment with enough room: the response is byte-for-byte what the values AT SELECTION TIME imply - packed g1v1 only for plainly ONLINE points, g1v2 (flags with the state in bit 7) otherwise, consecutive points of the same variation share a header - and nothing of the later update leaks (neither value, flags nor the choice of variation)
